@@ -61,7 +61,7 @@ package jet
 //@   callsite (*Set).getTemplate 0 requires [relative-names-resolve-against-the-referring-directory] {C15} ite(IsAbsP(caller.templatePath), templatePath == CleanP(caller.templatePath), templatePath == JoinP2(DirP(caller.siblingPath), caller.templatePath))
 
 //@ func (*Set).getTemplate
-//@   props C15 C16
+//@   props C15 C16 C09
 //@   requires SetOK(s) && Canon(templatePath)
 //@   modifies ghost CM, ghost NL
 //@   nopanic
@@ -69,6 +69,7 @@ package jet
 //@   check [cache-hit-returns-identical-template-without-loader] {C16} !s.developmentMode && lastret("(*Set).getTemplateFromCache", 1) && visits("(*Set).getTemplateFromCache", 0) == 1 ==> err == nil && t == lastret("(*Set).getTemplateFromCache", 0) && NL == old(NL) && CM == old(CM)
 //@   callsite (*Set).getTemplateFromCache 0 requires [dev-mode-bypasses-the-cache] {C16} !s.developmentMode && templatePath == caller.templatePath
 //@   callsite (*Set).getTemplateFromLoader 0 requires {C16,C15} templatePath == caller.templatePath && cacheAfterParsing == caller.cacheAfterParsing
+//@   check [a-loaded-template-is-returned-also-when-it-failed-to-parse] {C09,C16} ncalls("(*Set).getTemplateFromLoader") == 1 ==> t == lastret("(*Set).getTemplateFromLoader", 0) && err == lastret("(*Set).getTemplateFromLoader", 1)
 //@   callsite (Cache).Put 0 requires [only-successful-loads-are-cached] {C16,C02} lastret("(*Set).getTemplateFromLoader", 1) == nil && caller.cacheAfterParsing && !s.developmentMode && t == lastret("(*Set).getTemplateFromLoader", 0) && c == s.cache
 //@   callsite (Cache).Put 0 requires [cached-under-a-probed-name] {C16} exists(j, 0, len(s.extensions), templatePath == caller.templatePath + s.extensions[j])
 //@   callsite (Cache).Put 0 requires [cache-paths-are-canonical] {C15} Canon(templatePath)
@@ -111,6 +112,9 @@ package jet
 //@   loop 0 invariant t != nil && -1 <= rangeindex && rangeindex < len(t.imports) && fresh(t) && (t.processedBlocks == nil || fresh(t.processedBlocks)) && visits("(*Template).addBlocks", 1) == rangeindex + 1
 //@   ensures err == nil ==> t != nil && t.Name == name
 //@   check [error-exits-drain-the-lexer] {C02} err != nil ==> ncalls("(*lexer).drain") >= 1
+//@   callsite (*lexer).setDelimiters 0 requires [the-lexer-gets-the-sets-action-delimiters] {C03} leftDelim == s.leftDelim && rightDelim == s.rightDelim && l == lastret("lex", 0)
+//@   callsite (*lexer).setCommentDelimiters 0 requires [the-lexer-gets-the-sets-comment-delimiters] {C03} leftDelim == s.leftComment && rightDelim == s.rightComment && l == lastret("lex", 0)
+//@   callsite (*lexer).run 0 requires [both-delimiter-pairs-are-configured-before-the-lexer-runs] {C03} ncalls("(*lexer).setDelimiters") == 1 && ncalls("(*lexer).setCommentDelimiters") == 1
 //@   callsite (*Template).addBlocks 0 requires [extended-chain-has-lowest-precedence] {C08} blocks == caller.t.extends.processedBlocks && ncalls("(*Template).addBlocks") == 0
 //@   callsite (*Template).addBlocks 1 requires [imports-in-order-override-the-extended-chain] {C08} blocks == caller.t.imports[caller.rangeindex + 1].processedBlocks
 //@   callsite (*Template).addBlocks 2 requires [own-blocks-have-highest-precedence] {C08} blocks == caller.t.passedBlocks && visits("(*Template).addBlocks", 1) == len(caller.t.imports)
